@@ -246,10 +246,24 @@ def per_program(p):
         vs = U.values(p.spec, p.mat, json64=True)
     except U._Exhausted:
         return
-    for _ in range(5):
+    for i_ in range(5):
         v = p.draw(vs)
         for cfg in CONFIGS:
             check_value(p, v, cfg, p.col)
+        if i_ in (1, 3):
+            # encode after an encode of this very object failed on one invalid member and was handled (member put back in place)
+            from harness import retry
+            pick = p.draw(st.integers(0, 10 ** 6))
+            kc, cdc = tl.call(typelib.codec, p.T)
+            if kc == "ok":
+                r = retry.retry_after_failure(v, lambda o: tl.call(lambda: bytes(cdc.encode(o))), pick)
+                if r is not None:
+                    p.col.ev()
+                    p.col.label(f"retry:first-call-{'failed' if r[0] else 'passed'}")
+                    if r[2] != r[1]:
+                        p.col.violation("wire-round-trip", p.case(value=p.src(v), cfg="default", retry=pick),
+                                        f"T={p.mat.root_expr}: encode failed on an invalid member, the member was put back in place, the same call then "
+                                        f"{'raised ' + r[2][1] if r[2][0] == 'exc' else 'gave other bytes'}", bucket=f"retry|{r[2][0]}")
 
 
 def plan(tier, seed):
